@@ -372,6 +372,27 @@ theorem C05_identity_group_ops (existing : List Nat) (stored : List (Nat × Opti
     (∀ g, g ∈ (groupPlan existing stored).1 ↔ (g ∈ existing ∧ ∀ s ∈ stored, s.1 ≠ g)) :=
   ⟨rfl, (groupPlan_spec existing stored).1, (groupPlan_spec existing stored).2⟩
 
+/-! ### C08: the blacklist event -/
+
+/-- **C08 (blacklisting follows the stored list).**  After `_handle_apps_blacklist_event` every instance of the
+    cell — each once, in the cell's order — is flagged, and it is flagged blacklisted iff some entry of the NEW
+    list matches its base name (an instance matched by two entries stays blacklisted when one of them is
+    dropped). -/
+theorem C08_blacklist_ops (apps : List (Nat × List Bool)) :
+    (blacklistFlags apps).map (·.1) = apps.map (·.1) ∧
+    (∀ a ms, (a, ms) ∈ apps → (a, ms.any id) ∈ blacklistFlags apps) ∧
+    (∀ a f, (a, f) ∈ blacklistFlags apps → ∃ ms, (a, ms) ∈ apps ∧ (f = true ↔ true ∈ ms)) := by
+  refine ⟨by simp [blacklistFlags, List.map_map, Function.comp_def], ?_, ?_⟩
+  · intro a ms h
+    simp only [blacklistFlags, List.mem_map]
+    exact ⟨(a, ms), h, rfl⟩
+  · intro a f h
+    simp only [blacklistFlags, List.mem_map] at h
+    obtain ⟨⟨a', ms⟩, hm, he⟩ := h
+    simp only [Prod.mk.injEq] at he
+    obtain ⟨rfl, rfl⟩ := he
+    exact ⟨ms, hm, by simp [List.any_eq_true]⟩
+
 /-! ### Composition with the scheduler invariant -/
 
 /-- Operations whose guard `OpOk` is trivially true. -/
@@ -460,6 +481,8 @@ example : presenceCalls [(1, .up), (2, .down)] (fun n => n = 2)
 example : presenceCalls [(1, .up), (2, .down)] (fun n => n = 2) [.adjust 2 ⟨⟨.down, 990⟩, none, true, 1000⟩] = none := by
   decide
 example : findAssignment [⟨false, 5, 3⟩, ⟨true, 7, 4⟩, ⟨true, 9, 5⟩] 9 = (7, 4) ∧ findAssignment [⟨false, 5, 3⟩] 9 = (1, 9) := by
+  decide
+example : blacklistFlags [(7, [false, true]), (8, [false, false]), (9, [])] = [(7, true), (8, false), (9, false)] := by
   decide
 example : identityGroupCalls [1, 2] [(1, some (some 3))] = [.cell (.removeGroup 2), .cell (.configureGroup 1 3)] := by
   decide
